@@ -229,3 +229,99 @@ def c14d(F, R):
     if not any(q.startswith(new) for q in F.fns):
         raise Anchor("LabelString::new not found")
     R.ok("anchor|LabelString::new", detail=f"{sites} construction sites examined")
+
+
+@rule("C19", "C19.e.register-enumerations-complete", floor=1)
+@rule("C14", "C14.e.register-enumerations-complete", floor=1)
+def c14e(F, R):
+    """every loop or range that enumerates register numbers through Register::from_num runs up to the last register (x31): a bound of 31 instead of 32 silently drops t6 from whatever walks a RegisterSet (lint loops, kills, the dump)"""
+    from .p_parse import parent_map
+    nreg = len(F.variants(REG))
+    fromnum = F.method(REG, "from_num")
+    n = 0
+    for q, g in sorted(F.fns.items()):
+        if "hir" not in g or (g.get("exp") or "").startswith("Derive") or "::{closure" in q:
+            continue
+        root = q
+        body = g["hir"]["value"]
+        calls = [c for c in walk(body, pats=False) if c.get("k") == "Call" and callee_of(c) == fromnum]
+        if not calls:
+            continue
+        pm = parent_map(body)
+        for c in calls:
+            arg = peel(c["args"][0])
+            akey = ekey(arg)
+            bound = None   # (exclusive_end, where)
+            # (a) enclosing `while <arg> < N`
+            x = c
+            while id(x) in pm:
+                x = pm[id(x)]
+                if x.get("k") == "Loop" and x.get("src") == "While":
+                    iff = peel(x["body"].get("expr") or {})
+                    cond = iff.get("cond") if iff.get("k") == "If" else None
+                    while cond is not None and cond.get("k") in ("DropTemps", "Use"):
+                        cond = cond["e"]
+                    if cond is not None and cond.get("k") == "Binary" and cond["op"] in ("Lt", "Le") and ekey(cond["a"]) == akey:
+                        v = lit_value(cond["b"])
+                        if isinstance(v, int):
+                            bound = (v if cond["op"] == "Lt" else v + 1, loc(cond))
+            # (b) the argument is the parameter of a closure applied to a range (`(a..b).filter_map(|n| from_num(n))`)
+            if bound is None and arg.get("k") == "Path" and arg.get("res_kind") == "Local":
+                x = c
+                while id(x) in pm and bound is None:
+                    x = pm[id(x)]
+                    if x.get("k") == "Closure":
+                        pnames = [b_["name"] for p_ in x.get("params", []) for b_ in walk(p_) if b_.get("k") == "PBinding"]
+                        m = pm.get(id(x))
+                        if arg.get("res") in pnames and m is not None and m.get("k") == "MethodCall":
+                            r = m
+                            while r.get("k") == "MethodCall":
+                                r = peel(r["recv"])
+                            be = _range_end(r)
+                            if be is not None:
+                                bound = (be, loc(r))
+                        break
+            if bound is None:
+                for fl in for_loops(body):
+                    if any(y is c for y in walk(fl["body"], pats=False)):
+                        names = [b_["name"] for b_ in walk(fl["pat"]) if b_.get("k") == "PBinding"]
+                        if arg.get("k") == "Path" and arg.get("res") in names:
+                            r = peel(fl["iter"])
+                            while r.get("k") == "MethodCall":
+                                r = peel(r["recv"])
+                            b = _range_end(r)
+                            if b is not None:
+                                bound = (b, loc(r))
+            if bound is None:
+                continue
+            n += 1
+            key = f"{short(root)}|{n}"
+            if bound[0] == nreg:
+                R.ok(key, detail=f"{root}: register numbers are enumerated up to {nreg - 1}", where=bound[1])
+            else:
+                R.bad(f"{short(root)}|bound", f"{root} enumerates register numbers below {bound[0]}, but there are {nreg} registers: x{nreg - 1} (t6) is never produced, so whatever walks this set skips it", bound[1])
+    if n == 0:
+        raise Anchor("no register-number enumeration through Register::from_num found")
+
+
+def _range_end(r):
+    """exclusive end of a literal range expression, or None"""
+    r = peel(r)
+    if r.get("k") == "Struct" and (r.get("res") or r.get("path") or "").split("<")[0].endswith("Range"):
+        fs = {f_["name"]: lit_value(f_["e"]) for f_ in r["fields"]}
+        if isinstance(fs.get("end"), int):
+            return fs["end"]
+    if r.get("k") == "Call" and len(r["args"]) == 2 and (callee_of(r) or declared_callee(r) or "").endswith("RangeInclusive::<Idx>::new"):
+        v = lit_value(r["args"][1])
+        if isinstance(v, int):
+            return v + 1
+    return None
+
+
+def _contains_sp(m, g):
+    """closure g is (textually) one of the closure arguments of method call m"""
+    gs = g.get("sp") or ""
+    for a in m["args"]:
+        if a.get("k") == "Closure" and (a.get("sp") or "").split(":")[:3] == gs.split(":")[:3]:
+            return True
+    return False
